@@ -17,37 +17,61 @@ from common import REPO, Ctx, enc_bytes, enc_text, exc_name
 PID = "C07"
 PROPS_MODULE = "NumbersModel.Props.C07"
 THEOREMS = [f"NumbersModel.Props.C07.{t}" for t in (
-    "open_store_bounds", "ids_unique_and_below_hwm", "new_file_listed", "tiles_partition_rows", "tiles_wellformed",
-    "records_in_bounds_aligned_disjoint", "record_positions", "row_info_offsets_roundtrip")]
+    "open_store_bounds", "ids_unique_and_below_hwm", "new_file_listed", "new_files_listed_history", "references_closed",
+    "references_closed_except", "targetsExist_prefix", "header_refs_exact", "created_header_exact", "tiles_partition_rows",
+    "tiles_wellformed", "records_in_bounds_aligned_disjoint", "record_positions", "row_info_offsets_roundtrip")]
 PARTIAL = {
-    "references_resolve": "that every TSP.Reference inside the protobuf objects the library creates or rewrites resolves inside the package "
-                          "is not a theorem (the object graph is not modelled); it is validated on every saved package by harness/validator.py",
     "saved_file_opens_again": "validated, not proved (zipfile, snappy, protobuf and the whole reader are outside the model)",
-    "creator_sites_follow_listed_pattern": "new_file_listed is proved for the creation pattern every file-creating site uses (create_object_from_dict('Index/<loc>') followed by "
-                       "add_component_metadata(id, parent, '<loc>')); that each site in model.py follows the pattern is checked by the validator",
+    "targets_exist_at_each_site": "references_closed is proved for every history that satisfies TargetsExist; that the histories the library performs satisfy it "
+                                  "is checked on every recorded real session (oracle signature reference-to-missing-object), not derived from model.py: the "
+                                  "creator sites are not modelled one by one. It fails exactly for identifier 0 (known finding null-reference-identifier-zero; "
+                                  "references_closed_except with the exemption of 0 covers those histories)",
+    "stored_objects_stay_filed": "header_refs_exact assumes wellFiled (every stored object's archive is in the file its file-name map names). It is not an invariant of "
+                                 "arbitrary histories: create_object_from_dict stores a new file under pattern.format(id)+'.iwa' even when a member of that name exists "
+                                 "(example in Props/C07.lean); the driver evaluates wellFiled before and after every recorded history and the oracle checks it on the real store",
+    "header_exact_without_proviso": "header_refs_exact has the proviso the code has (`if len(references) > 0`): an object whose message lost all references keeps the header "
+                                    "list of an earlier moment (seen on real sessions: HeaderStorageBucket of issue-66-collab / issue-77, counted in the evidence); the "
+                                    "entries still resolve, so closure is not affected",
 }
 RULE = ("correspondence: _max_id of freshly opened fixtures and math.ceil(m/1e6)*1e6 on boundary values; seeded sequences of "
         "create_object_from_dict / add_component_metadata on a real ObjectStore + _NumbersModel stub (file choice by substring, append, "
         "new files, failures after the identifier is consumed); tiles of saved tables with 0..1100 rows; recalculate_row_info on seeded "
-        "rows (incl. a row too long for 16-bit offsets). Validator (exploration): every package produced by plain re-save of fixtures and by "
+        "rows (incl. a row too long for 16-bit offsets); object graph: every edit+save session below is recorded in-process (harness/objgraph.py wraps "
+        "create_object_from_dict, add_component_metadata, add_component_reference, update_object_file_store, set_reference and the reference-writing methods of "
+        "model.py; reference writes are observed as differences of each object's reference list between observation points) and the recorded history is replayed "
+        "through the model (`ostore ghist`): results of every creation / metadata call, wellFiled, TargetsExist and the final state (identifiers, archive inventory, "
+        "components with external references, per archive the references of the written message and the header's object_references) must equal the decoded saved package. "
+        "Oracle on the real session (independent of the model): TargetsExist at every recorded write, every new archive file listed, no member replaced, every stored object filed, "
+        "header object_references = references of the message for every archive created or changed. Validator (exploration): every package produced by plain re-save of fixtures and by "
         "seeded edit histories (new sheets/tables incl. 255/256/257/512 rows and 256/257/1000 columns, writes of every cell kind, styles, "
         "custom formats, borders, captions, merges, row/column insertion and deletion, repeated saves, package-folder form). Non-trivial = a "
-        "distinct protocol line or a saved package validated")
+        "distinct protocol line, a saved package validated or a recorded session replayed")
 ASSUMPTIONS = ["math.ceil(m / 1000000) is exact float arithmetic for identifiers below 2^53 (modelled as integer ceiling)",
                "cell records have lengths that are multiples of 4 (C04) — hypothesis of records_in_bounds_aligned_disjoint",
-               "the validator decodes packages with the library's own IWA/protobuf classes (used as a decoder only)"]
+               "the validator and the recorder decode messages with the library's own IWA/protobuf classes (used as a decoder only); references are found by "
+               "validator.all_references (own walk over ListFields, map fields skipped as iwafile.find_references skips them)",
+               "a protobuf message is abstracted to the list of identifiers of the TSP.Reference values inside it; an archive to (message references, "
+               "message_infos[0].object_references); objects read from the source share their message with the archive, created ones do not (containers.py / iwork.py)",
+               "component identifiers of PackageMetadata are pairwise distinct (then the identifier-keyed dict and the @cache of metadata_component are unobservable)"]
 MANIFEST = {
-    "text": "Thin: identifier allocation and creation bookkeeping are modelled as a state machine (new_message_id, "
-            "create_object_from_dict, add_component_metadata): ids_unique_and_below_hwm (any sequence of creations, including ones that "
-            "raise half-way: new identifiers pairwise distinct, distinct from loaded ones, <= last_object_identifier), open_store_bounds, "
-            "new_file_listed; tile geometry: tiles_partition_rows + tiles_wellformed (for every row count the tiles cover exactly rows "
-            "0..n-1, each tile non-empty, <= 256 rows, ids 0..ceil(n/256)-1); row-infos: records_in_bounds_aligned_disjoint + "
-            "record_positions + row_info_offsets_roundtrip (what recalculate_row_info writes decodes through the reader to exactly the "
-            "records; 4-byte aligned, in bounds, disjoint). Reference closure, 'opens again' and the inventory of real packages are "
-            "reached only by harness/validator.py on saved files — implementation-level exploration, labelled as such.",
-    "note": "object graph / protobuf contents are not modelled; validator decodes with the library's own classes; Apple Numbers' "
-            "acceptance of the files is out of reach.",
-    "technique": "Lean 4 proof (state-machine invariant, arithmetic of tiles and offsets) + differential correspondence + structural validator",
+    "text": "Identifier allocation, creation bookkeeping and the object graph are modelled as a state machine (new_message_id, create_object_from_dict, "
+            "add_component_metadata, add_component_reference, reference writes / removals, update_object_file_store with copy_object_to_iwa_file's header rule, "
+            "store_image): ids_unique_and_below_hwm (any sequence of creations, including ones that raise half-way: new identifiers pairwise distinct, distinct "
+            "from loaded ones, <= last_object_identifier), open_store_bounds; references_closed (closure is an invariant: for every opened document and every "
+            "history whose reference writes target an object existing at that moment - TargetsExist, decidable - every reference of every live message, written "
+            "message and archive header in every reachable state resolves, except those already unresolved at load in the same object; "
+            "references_closed_except: the same with an exempted identifier set - the recorded add_table history violates TargetsExist exactly at the write of "
+            "identifier 0, known finding null-reference-identifier-zero, shown by an example); header_refs_exact (after update_object_file_store every stored "
+            "object's written message holds the live references and its header lists exactly them, with the code's proviso for a message without references) + "
+            "created_header_exact; new_file_listed + new_files_listed_history (a new archive file is listed with the locator that names it and the entry survives "
+            "every later operation); tile geometry: tiles_partition_rows + tiles_wellformed; row-infos: records_in_bounds_aligned_disjoint + record_positions + "
+            "row_info_offsets_roundtrip. Tie to the code: the operation history of every real edit+save session (seeded histories, add_table / add_sheet across tile "
+            "boundaries, styles, custom formats, captions, merges, borders, plain re-saves, second saves, reopened files) is recorded in-process and replayed through "
+            "the model; the model's final state equals the decoded saved package, and TargetsExist / listing / filing / header exactness are checked on the real session. "
+            "'Opens again' and the table-level conjuncts of real packages are reached by harness/validator.py - implementation-level exploration, labelled as such.",
+    "note": "protobuf contents other than references are not modelled; that each creator site of model.py satisfies TargetsExist is observed on recorded sessions, not derived; "
+            "validator and recorder decode with the library's own classes; Apple Numbers' acceptance of the files is out of reach.",
+    "technique": "Lean 4 proof (state-machine invariants over operation histories, arithmetic of tiles and offsets) + differential correspondence on recorded real sessions + structural validator",
 }
 
 SLOW_QUICK = {"duration_112", "custom-format-stress", "issue-67", "date_formats", "test-6"}
@@ -419,12 +443,17 @@ _QUICK = [True]
 GRAPH_SUBSPACE = "object-graph history of a real edit+save session: model's final state vs decoded saved package"
 
 
+def _only(a: list, b: list) -> list:
+    from collections import Counter
+    return sorted((Counter(a) - Counter(b)).elements())
+
+
 def graph_check(sub: Ctx, rec, facts, where: dict, label: str) -> dict:
     """`rec`: the recorder attached to the document's store; `facts`: the decoded saved package.
     Returns the compact correspondence result (the model is run here, in the worker)."""
     rec.flush()
     tag = f" [{label}]"
-    hist = {"history_tail": rec.history_json(30), "ops": len(rec.ops)}
+    hist = {"history_tail": rec.history_json(30), "recorded_ops": len(rec.ops)}
     # -- the property on the real session (independent of the Lean model) -----------------------
     for b in rec.bad_targets:   # TargetsExist on the real history
         if b["target"] == 0:
@@ -463,7 +492,8 @@ def graph_check(sub: Ctx, rec, facts, where: dict, label: str) -> dict:
                 continue
             if h != m:
                 sub.violation("header-object-references-differ-from-message", f"archive {i} ({type(a.objects[0]).__name__}, {'from source' if i in load_ids else 'new'}) in {n}: "
-                              f"the message refers to {m[:8]} but the header lists {h[:8]}" + tag, {**where, **hist, "object": i, "message": m[:40], "header": h[:40]})
+                              f"{len(m)} references in the message, {len(h)} in the header; only in the message {_only(m, h)[:6]}, only in the header {_only(h, m)[:6]}" + tag,
+                              {**where, **hist, "object": i, "message": m[:40], "header": h[:40]})
     # -- correspondence: the same history through the Lean model -------------------------------
     req = rec.request()
     t = int(not rec.bad_targets)
@@ -633,11 +663,19 @@ def replay(data):
         d = tempfile.mkdtemp(prefix="c07-")
         try:
             source = V.Facts(src if src else _template())
-            doc, log, fresh = run_history(src, i["seed"] * 7919 + i["history"], i["ops"], tuple(i["shape"]) if i.get("shape") else None)
+            with G.recording():
+                doc, log, fresh = run_history(src, i["seed"] * 7919 + i["history"], i["ops"], tuple(i["shape"]) if i.get("shape") else None)
+            rec = G.rec_of(doc._model.objects)
             p1 = os.path.join(d, "one.numbers")
             doc.save(p1, package=i.get("package", False))
-            issues, _ = V.validate(p1, source, fresh_tables=fresh)
+            issues, f1 = V.validate(p1, source, fresh_tables=fresh)
             out = {"first_save": [(s, w) for s, w, _ in issues]}
+            if rec is not None and f1 is not None:
+                sub = Ctx(PID, "quick", 0)
+                g = graph_check(sub, rec, f1, {"kind": "history"}, "first save")
+                out["object_graph"] = {"recorded_ops": len(rec.ops), "TargetsExist_failures": rec.bad_targets[:5],
+                                       "oracle": [(v["signature"], v["what"]) for v in sub.violations], "model_disagreement": g["disagreement"],
+                                       "history_tail": rec.history_json(40)}
             if i.get("second_save"):
                 p2 = os.path.join(d, "two.numbers")
                 doc.save(p2)
